@@ -367,6 +367,7 @@ class Impl(object):
         # the label (labeled-response) is written into the dequeued object itself: describe the
         # sources as they were queued
         pre = dict((id(x), self.ser(x)) for q in bq for x in q)
+        prelabel = dict((id(x), x.server_tags.get('label')) for q in bq for x in q)
         r = self.take_fn()
         self.last_taken = r
         chain = [list(e) for e in self.chain]
@@ -412,6 +413,12 @@ class Impl(object):
             parts.append(('F' if fast else 'Q') + pre.get(id(src), self.ser(src)) + '>' + ('X' if out is None else self.ser(out)))
             if out is not None and 'label' in out.server_tags and AUTO_RE.match(out.server_tags['label'] or ''):
                 self.tags.add('label-added')
+            if out is src and prelabel.get(id(src)) is not None and out.server_tags.get('label') != prelabel[id(src)]:
+                self.fail('the label %r the caller put on %s was replaced by %r (the caller can no longer match the response)'
+                          % (prelabel[id(src)], pre.get(id(src)), out.server_tags.get('label')))
+            if out is src and out is not None and 'labeled-response' in irc.state.capabilities_ack and not self.rules \
+                    and 'label' not in out.server_tags:
+                self.fail('labeled-response is negotiated but %s went out without a label' % self.ser(out))
             if out is None:
                 self.tags.add('filter-drop-fast' if fast else 'filter-drop-queue')
                 if last and r is not None:
@@ -898,8 +905,8 @@ def run(ctx):
     if ctx.thorough:
         n, n_reuse, maxlen = 45000, 2500, 90
     else:
-        n, n_reuse, maxlen = 5200, 300, 60
-    cases, lines, spans = explore('c19', n, n_reuse, maxlen, load_corpus(), budget=(840.0 if ctx.thorough else 75.0),
+        n, n_reuse, maxlen = 4400, 260, 60
+    cases, lines, spans = explore('c19', n, n_reuse, maxlen, load_corpus(), budget=(600.0 if ctx.thorough else 50.0),
                                   n_driver=(6000 if ctx.thorough else 500))
     status, wcase = reuse_witness_status()
     if build.driver_ok:
